@@ -1,1 +1,68 @@
-// contracts needing private items of src/graph.rs
+// Kani bounded stand-ins for src/graph.rs (private fields of NodeKmer/NodeKmerIter reachable here).
+// Paired counterexample harness for the unbounded Verus contract of NodeKmerIter::{next, nth}.
+
+use super::*;
+use crate::kmer::Kmer4;
+use crate::verif::kmers::lane as klane;
+use crate::verif::src::Src;
+use crate::verif::{chk, harness};
+use std::marker::PhantomData;
+
+fn raw_lane(w: u64, j: usize) -> u8 {
+    ((w >> (62 - 2 * j)) & 3) as u8
+}
+
+/// BOUNDED: node = first 9 bases of a 21-base string (6 4-mers, followed by a neighbouring node's
+/// bases), any sequence of 3 calls next()/nth(n), n <= 9. Iterator::nth semantics: skip n, return the
+/// next item; None - and exhausted for good - when fewer than n+1 items remain.
+pub fn c_node_iter_seq<S: Src>(s: &mut S) {
+    let w = s.u64();
+    s.assume(w & ((1u64 << 22) - 1) == 0);
+    let dna = crate::dna_string::verif::mk_dna(vec![w], 21);
+    let nk: NodeKmer<Kmer4, ()> = NodeKmer {
+        node_id: 0,
+        node_seq_slice: dna.slice(0, 9),
+        phantom_k: PhantomData,
+        phantom_d: PhantomData,
+    };
+    let mut it = nk.into_iter();
+    let sh = it.size_hint();
+    chk!(s, sh.0 == 6 && sh.1 == Some(6), "size_hint reports the exact number of k-mers up front");
+    let mut idx = 0usize;
+    let mut step = 0;
+    while step < 3 {
+        let use_nth = s.bool();
+        let n = s.usize();
+        s.assume(n <= 9);
+        let skip = if use_nth { n } else { 0 };
+        let r = if use_nth { it.nth(n) } else { it.next() };
+        if idx + skip < 6 {
+            match r {
+                Some(k) => {
+                    let mut j = 0;
+                    while j < 4 {
+                        chk!(s, klane(&k, j) == raw_lane(w, idx + skip + j), "next/nth yields the node's k-mer at the expected offset");
+                        j += 1;
+                    }
+                }
+                None => chk!(s, false, "next/nth returned None although items remain"),
+            }
+            idx += skip + 1;
+        } else {
+            chk!(s, r.is_none(), "next/nth past the last k-mer returns None (never a neighbour's k-mer)");
+            idx = 6;
+        }
+        step += 1;
+    }
+    s.cover(idx == 6);
+}
+
+harness!(g_node_iter_seq, c_node_iter_seq, unwind 12);
+
+pub fn replay(name: &str, s: &mut crate::verif::src::RSrc) -> bool {
+    match name {
+        "g_node_iter_seq" => c_node_iter_seq(s),
+        _ => return false,
+    }
+    true
+}
